@@ -4,7 +4,7 @@ import ast
 from sa.loader import AnalysisError, norm, walk_local
 from sa.cfg import cfg_of, handler_names
 from sa.pathsum import summaries
-from .common import assigned_values, analysis, names_in, ends_in_raise, str_consts_compared, eq_texts, true_facts
+from .common import resolve_local, namespace_from_schema_name, assigned_values, analysis, names_in, ends_in_raise, str_consts_compared, eq_texts, true_facts
 
 PROP = "C19"
 TECHNIQUE = "error-mapping discipline of the repository and the retry loop (which handler re-raises which exception); CFG order of the single-injection bookkeeping; sibling agreement of the two schema walkers (_inject_schema vs _parse_schema: reference qualification, namespace tracking, kinds); shared name table in ordered loading"
@@ -47,8 +47,10 @@ def run(ctx):
         if len(inner) == 1 and h.name:
             ih = [x for x in inner[0].handlers if any("SchemaRepositoryError" in nm for nm in handler_names(x))]
             ok = len(ih) == 1 and len(ih[0].body) == 1 and isinstance(ih[0].body[0], ast.Raise) and ih[0].body[0].exc is not None and norm(ih[0].body[0].exc) == h.name
-            ms = [n for st in h.body for n in ast.walk(st) if isinstance(n, ast.Assign) and norm(n) == f"missing_subject = {h.name}.name"]
-            ok = ok and len(ms) == 1
+            # what is loaded is the type the UnknownType names: <error>.name reaches the load (directly or through a local)
+            want = f"{h.name}.name"
+            loads = [c for st in inner[0].body for c in ast.walk(st) if isinstance(c, ast.Call) and c.args]
+            ok = ok and any(norm(resolve_local(pw.node, c.args[0])) == want or (isinstance(c.args[0], ast.Call) and c.args[0].args and norm(resolve_local(pw.node, c.args[0].args[0])) == want) for c in loads)
     ctx.check("C19.R1", "retry loop: the missing subject is error.name and a failed load re-raises that UnknownType", ok, pw.where(), "_parse_schema_with_repo handlers", "a missing file must surface as an error naming the missing type, not as a repository error about a file")
     ut = p.cls("_schema_common:UnknownType").methods["__init__"]
     ok = any(isinstance(n, ast.Assign) and norm(n) == "self.name = name" for n in walk_local(ut.node))
@@ -81,9 +83,20 @@ def run(ctx):
 
     qi, qp = qual_rule(inj_f, "outer_schema"), qual_rule(ps, "schema")
     ctx.check("C19.R3", "a reference is qualified by the same rule in both walkers", qi == qp and len(qi) == 1, inj_f.where(), f"_inject_schema qualifies when {qi}; _parse_schema when {qp}", "the injector looks for a different full name than the parser resolves: the loaded type is never inlined (or inlined at the wrong place)")
-    rec_ns_i = [n for n in walk_local(inj_f.node) if isinstance(n, ast.Assign) and "schema_name(outer_schema, namespace)" in norm(n.value) and isinstance(n.targets[0], ast.Tuple) and norm(n.targets[0].elts[0]) == "namespace"]
-    rec_ns_p = [n for n in walk_local(ps.node) if isinstance(n, ast.Assign) and "schema_name(schema, namespace)" in norm(n.value) and isinstance(n.targets[0], ast.Tuple) and norm(n.targets[0].elts[0]) == "namespace"]
-    ctx.check("C19.R3", "both walkers take a record's namespace from schema_name (dotted names included)", len(rec_ns_i) == 1 and len(rec_ns_p) == 1, inj_f.where(), f"_inject_schema namespace tracking: {[norm(x) for x in rec_ns_i]}", "a record whose namespace is carried by a dotted name would be walked with the wrong namespace: its relative references never match the loaded type")
+    # record fields are walked under element 0 of schema_name(<schema>, <enclosing namespace>) in both walkers
+    def field_ns_ok(f, callee, pos, schema_param):
+        calls = [c for c in ast.walk(f.node) if isinstance(c, ast.Call) and isinstance(c.func, ast.Name) and c.func.id == callee and len(c.args) > pos and "'type'" in norm(c.args[0]) + "'type'" * (callee == "parse_field")]
+        calls = [c for c in calls if callee == "parse_field" or "field" in norm(c.args[0]) or "['type']" in norm(c.args[0])]
+        if not calls:
+            return None
+        return all(namespace_from_schema_name(a, f, c.args[pos], schema_param, None) for c in calls)
+
+    ok_i = field_ns_ok(inj_f, inj_f.name, 2, inj_f.pos_params[0])
+    ok_p = field_ns_ok(ps, "parse_field", 1, ps.pos_params[0])
+    if ok_i is None or ok_p is None:
+        ctx.unrecognised("C19.R3", "record namespace tracking", inj_f.where(), "the calls that walk a record's fields were not found")
+    else:
+        ctx.check("C19.R3", "both walkers take a record's namespace from schema_name (dotted names included)", ok_i and ok_p, inj_f.where() if not ok_i else ps.where(), f"namespace for record fields from schema_name: injector {ok_i}, parser {ok_p}", "a record whose namespace is carried by a dotted name would be walked with the wrong namespace: its relative references never match the loaded type")
     ki, kp = str_consts_compared(inj_f.node, "schema_type"), str_consts_compared(ps.node, "schema_type")
     ctx.check("C19.R3", "both walkers know the same schema kinds", ki == kp, inj_f.where(), f"_inject_schema kinds {sorted(ki)} vs _parse_schema {sorted(kp)}", "a kind the parser accepts is not walked by the injector")
     icfg = cfg_of(inj_f)
